@@ -187,6 +187,36 @@ impl<'ctxt, R: ImportResolver, C: Cache> VirtualMachine<'ctxt, R, C> {
     ///
     /// The argument is expected to be evaluated (in WHNF). `pos_op` corresponds to the whole
     /// operation position, that may be needed for error reporting.
+    /// Fixes the fields of a record as `%record/freeze%` does: the pending contracts of each field
+    /// are applied and the result is closurized, which cuts the recursive dependencies between the
+    /// fields (they won't be recomputed by a subsequent merge).
+    fn freeze_fields(
+        &mut self,
+        fields: &IndexMap<LocIdent, Field>,
+        env: &Environment,
+    ) -> IndexMap<LocIdent, Field> {
+        fields
+            .iter()
+            .map(|(id, field)| {
+                let field = field.clone();
+
+                let value = field.value.map(|value| {
+                    let pos = value.pos_idx();
+                    RuntimeContract::apply_all(value, field.pending_contracts, pos)
+                });
+
+                let field = Field {
+                    value,
+                    pending_contracts: Vec::new(),
+                    ..field
+                }
+                .closurize(&mut self.context.cache, env.clone());
+
+                (*id, field)
+            })
+            .collect()
+    }
+
     fn eval_op1(&mut self, eval_data: Op1EvalData) -> Result<Closure, ErrorKind> {
         let Op1EvalData {
             orig_pos_arg,
@@ -1209,28 +1239,7 @@ impl<'ctxt, R: ImportResolver, C: Cache> VirtualMachine<'ctxt, R, C> {
                         }));
                     }
 
-                    let fields = record
-                        .fields
-                        .iter()
-                        .map(|(id, field)| {
-                            let field = field.clone();
-
-                            let value = field.value.map(|value| {
-                                let pos = value.pos_idx();
-                                RuntimeContract::apply_all(value, field.pending_contracts, pos)
-                            });
-
-                            let field = Field {
-                                value,
-                                pending_contracts: Vec::new(),
-                                ..field
-                            }
-                            .closurize(&mut self.context.cache, env.clone());
-
-                            (*id, field)
-                        })
-                        .collect();
-
+                    let fields = self.freeze_fields(&record.fields, &env);
                     let attrs = record.attrs.frozen();
 
                     Ok(Closure {
@@ -2399,6 +2408,23 @@ impl<'ctxt, R: ImportResolver, C: Cache> VirtualMachine<'ctxt, R, C> {
                     // we made sure to allocate a record block to specifically exclude this case.
                     return mk_type_error!("Record", 2, value2);
                 };
+
+                // The remaining fields might depend on the removed one. As long as the record isn't
+                // frozen, those recursive dependencies are still live: a subsequent merge would
+                // revert the dependent fields and recompute them in a recursive environment where
+                // the removed field is missing (unbound identifier). `std.record.remove` freezes
+                // its argument first; this primop is also used directly by the compilation of the
+                // `..rest` part of a record pattern, on an arbitrary record. We thus cut the
+                // dependencies of the remaining fields here, exactly as `%record/freeze%` does. A
+                // record with a sealed tail can't be marked as frozen (and `%record/freeze%`
+                // rejects it), but its visible fields are fixed all the same.
+                if !record.attrs.frozen {
+                    record.fields = self.freeze_fields(&record.fields, &env2);
+
+                    if record.sealed_tail.is_none() {
+                        record.attrs = record.attrs.frozen();
+                    }
+                }
 
                 let fetched = record.fields.swap_remove(&LocIdent::from(id));
 
